@@ -86,11 +86,13 @@ type Directives struct {
 	Unwind    int
 	Depth     int
 	Panics    string // violation | report | ignore
+	Mode      string // merge (default) | fork
+	MaxPaths  int
 	NoTimers  bool
 	Init      []string
 }
 
-var dirRe = regexp.MustCompile(`(?m)^//verif:(\S+)\s*(.*)$`)
+var dirRe = regexp.MustCompile(`(?m)^//verif:(\S+)[ \t]*(.*)$`)
 
 // parseDirectives reads //verif: lines from the doc comment region of a harness function
 // (all directives in the file before the function apply when marked "file").
@@ -119,6 +121,10 @@ func parseDirectives(src string, fn string) Directives {
 				fmt.Sscanf(arg, "%d", &d.Depth)
 			case "panics":
 				d.Panics = arg
+			case "mode":
+				d.Mode = arg
+			case "maxpaths":
+				fmt.Sscanf(arg, "%d", &d.MaxPaths)
 			case "notimers":
 				d.NoTimers = true
 			case "init":
@@ -170,7 +176,7 @@ func main() {
 		pkgPat    = flag.String("pkg", "", "package pattern(s), comma separated (relative to repo, e.g. ./pkg/rpc)")
 		funcs     = flag.String("funcs", "", "regexp selecting harness functions (default ^Verif)")
 		timeout   = flag.Int("timeout", 20000, "per-query solver timeout (ms)")
-		solverK   = flag.String("solver", "z3", "solver: z3 | z3-new | cvc5")
+		solverK   = flag.String("solver", "z3-new", "solver: z3 | z3-new | cvc5")
 		out       = flag.String("out", "", "write JSON result here")
 		cexDir    = flag.String("cex", "", "directory for counterexample files")
 		trace     = flag.Bool("trace", false, "trace calls and aborts")
@@ -266,6 +272,22 @@ func main() {
 			f := sp.Members[name].(*ssa.Function)
 			file := ld.prog.Fset.Position(f.Pos()).Filename
 			src := string(ov[file])
+			// file-level directives of every harness file of the same package apply
+			for path, data := range ov {
+				if filepath.Dir(path) == filepath.Dir(file) && path != file && !strings.HasSuffix(path, "zz_verif_rt.go") {
+					txt := string(data)
+					if i := strings.Index(txt, "\nfunc "); i >= 0 {
+						txt = txt[:i]
+					}
+					var dirs []string
+					for _, m := range dirRe.FindAllString(txt, -1) {
+						dirs = append(dirs, m)
+					}
+					if len(dirs) > 0 {
+						src = strings.Join(dirs, "\n") + "\n" + src
+					}
+				}
+			}
 			hfs = append(hfs, hf{f, src})
 		}
 	}
